@@ -14,18 +14,20 @@ Inductive chandir := DBoth | DRecv | DSend.
 (* what reflect reports about a type *)
 Record gotype := {
   gk : kind;
-  gnamed : bool;                    (* a defined type (type Level int), not the predeclared one *)
+  gname : N;                        (* identity of a defined type (type Level int); 0 for an unnamed / predeclared type *)
   gerr : bool;                      (* ConvertibleTo(error): implements the error interface *)
   gdir : chandir;                   (* for channels *)
   gelem_err : bool;                 (* channel element ConvertibleTo(error) *)
   gplain_err_chan : bool            (* exactly the unnamed type chan error or <-chan error *)
 }.
 
+Definition gnamed (t : gotype) : bool := negb (N.eqb (gname t) 0).
+
 Definition gotype_eqb (a b : gotype) : bool :=
   match gk a, gk b with
   | KInt, KInt | KInt8, KInt8 | KInt16, KInt16 | KInt32, KInt32 | KInt64, KInt64 | KUint, KUint
   | KFloat32, KFloat32 | KFloat64, KFloat64 | KBool, KBool | KString, KString | KStruct, KStruct
-  | KSlice, KSlice | KPtr, KPtr | KIface, KIface | KChan, KChan | KFunc, KFunc => Bool.eqb (gnamed a) (gnamed b)
+  | KSlice, KSlice | KPtr, KPtr | KIface, KIface | KChan, KChan | KFunc, KFunc => N.eqb (gname a) (gname b)
   | _, _ => false
   end.
 
@@ -238,29 +240,32 @@ Definition call_command_bridge (b : bridged) (host : list goval -> hostret) (cha
   end.
 
 (* ---- the catalogue of Go types the harness can build signatures from ---- *)
-Definition mk_t (k : kind) (named err : bool) : gotype :=
-  {| gk := k; gnamed := named; gerr := err; gdir := DBoth; gelem_err := false; gplain_err_chan := false |}.
-Definition mk_chan (named : bool) (d : chandir) (elem_err plain : bool) : gotype :=
-  {| gk := KChan; gnamed := named; gerr := false; gdir := d; gelem_err := elem_err; gplain_err_chan := plain |}.
+Definition mk_t (k : kind) (name : N) (err : bool) : gotype :=
+  {| gk := k; gname := name; gerr := err; gdir := DBoth; gelem_err := false; gplain_err_chan := false |}.
+Definition mk_chan (name : N) (d : chandir) (elem_err plain : bool) : gotype :=
+  {| gk := KChan; gname := name; gerr := false; gdir := d; gelem_err := elem_err; gplain_err_chan := plain |}.
 
 Definition type_of_id (s : str) : option gotype :=
-  if str_eqb s (STR "int") then Some (mk_t KInt false false) else if str_eqb s (STR "int8") then Some (mk_t KInt8 false false)
-  else if str_eqb s (STR "int16") then Some (mk_t KInt16 false false) else if str_eqb s (STR "int32") then Some (mk_t KInt32 false false)
-  else if str_eqb s (STR "int64") then Some (mk_t KInt64 false false) else if str_eqb s (STR "uint") then Some (mk_t KUint false false)
-  else if str_eqb s (STR "float32") then Some (mk_t KFloat32 false false) else if str_eqb s (STR "float64") then Some (mk_t KFloat64 false false)
-  else if str_eqb s (STR "bool") then Some (mk_t KBool false false) else if str_eqb s (STR "string") then Some (mk_t KString false false)
-  else if str_eqb s (STR "error") then Some (mk_t KIface false true) else if str_eqb s (STR "any") then Some (mk_t KIface false false)
-  else if str_eqb s (STR "MyInt") then Some (mk_t KInt true false) else if str_eqb s (STR "MyInt8") then Some (mk_t KInt8 true false)
-  else if str_eqb s (STR "MyInt16") then Some (mk_t KInt16 true false) else if str_eqb s (STR "MyInt32") then Some (mk_t KInt32 true false)
-  else if str_eqb s (STR "MyInt64") then Some (mk_t KInt64 true false) else if str_eqb s (STR "MyFloat32") then Some (mk_t KFloat32 true false)
-  else if str_eqb s (STR "MyFloat64") then Some (mk_t KFloat64 true false) else if str_eqb s (STR "MyBool") then Some (mk_t KBool true false)
-  else if str_eqb s (STR "MyString") then Some (mk_t KString true false)
-  else if str_eqb s (STR "MyErr") then Some (mk_t KStruct true true) else if str_eqb s (STR "MyStruct") then Some (mk_t KStruct true false)
-  else if str_eqb s (STR "[]int") then Some (mk_t KSlice false false) else if str_eqb s (STR "*int") then Some (mk_t KPtr false false)
-  else if str_eqb s (STR "chan error") then Some (mk_chan false DBoth true true)
-  else if str_eqb s (STR "<-chan error") then Some (mk_chan false DRecv true true)
-  else if str_eqb s (STR "chan<- error") then Some (mk_chan false DSend true false)
-  else if str_eqb s (STR "MyChan") then Some (mk_chan true DBoth true false)
-  else if str_eqb s (STR "chan int") then Some (mk_chan false DBoth false false)
-  else if str_eqb s (STR "chan MyErr") then Some (mk_chan false DBoth true false)
+  if str_eqb s (STR "int") then Some (mk_t KInt 0%N false) else if str_eqb s (STR "int8") then Some (mk_t KInt8 0%N false)
+  else if str_eqb s (STR "int16") then Some (mk_t KInt16 0%N false) else if str_eqb s (STR "int32") then Some (mk_t KInt32 0%N false)
+  else if str_eqb s (STR "int64") then Some (mk_t KInt64 0%N false) else if str_eqb s (STR "uint") then Some (mk_t KUint 0%N false)
+  else if str_eqb s (STR "float32") then Some (mk_t KFloat32 0%N false) else if str_eqb s (STR "float64") then Some (mk_t KFloat64 0%N false)
+  else if str_eqb s (STR "bool") then Some (mk_t KBool 0%N false) else if str_eqb s (STR "string") then Some (mk_t KString 0%N false)
+  else if str_eqb s (STR "error") then Some (mk_t KIface 0%N true) else if str_eqb s (STR "any") then Some (mk_t KIface 0%N false)
+  else if str_eqb s (STR "MyInt") then Some (mk_t KInt 1%N false) else if str_eqb s (STR "MyInt8") then Some (mk_t KInt8 2%N false)
+  else if str_eqb s (STR "MyInt16") then Some (mk_t KInt16 3%N false) else if str_eqb s (STR "MyInt32") then Some (mk_t KInt32 4%N false)
+  else if str_eqb s (STR "MyInt64") then Some (mk_t KInt64 5%N false) else if str_eqb s (STR "MyFloat32") then Some (mk_t KFloat32 6%N false)
+  else if str_eqb s (STR "MyFloat64") then Some (mk_t KFloat64 7%N false) else if str_eqb s (STR "MyBool") then Some (mk_t KBool 8%N false)
+  else if str_eqb s (STR "MyString") then Some (mk_t KString 9%N false)
+  else if str_eqb s (STR "MyIntB") then Some (mk_t KInt 13%N false) else if str_eqb s (STR "MyInt64B") then Some (mk_t KInt64 14%N false)
+  else if str_eqb s (STR "MyFloat64B") then Some (mk_t KFloat64 15%N false) else if str_eqb s (STR "MyBoolB") then Some (mk_t KBool 16%N false)
+  else if str_eqb s (STR "MyStringB") then Some (mk_t KString 17%N false)
+  else if str_eqb s (STR "MyErr") then Some (mk_t KStruct 10%N true) else if str_eqb s (STR "MyStruct") then Some (mk_t KStruct 11%N false)
+  else if str_eqb s (STR "[]int") then Some (mk_t KSlice 0%N false) else if str_eqb s (STR "*int") then Some (mk_t KPtr 0%N false)
+  else if str_eqb s (STR "chan error") then Some (mk_chan 0%N DBoth true true)
+  else if str_eqb s (STR "<-chan error") then Some (mk_chan 0%N DRecv true true)
+  else if str_eqb s (STR "chan<- error") then Some (mk_chan 0%N DSend true false)
+  else if str_eqb s (STR "MyChan") then Some (mk_chan 12%N DBoth true false)
+  else if str_eqb s (STR "chan int") then Some (mk_chan 0%N DBoth false false)
+  else if str_eqb s (STR "chan MyErr") then Some (mk_chan 0%N DBoth true false)
   else None.
